@@ -270,8 +270,14 @@ def gen_cases(ctx):
                     if ename == 'stop-stop-drop' and (k > 2 or not thorough and n > 2):
                         continue
                     for _ in range(reps):
-                        ops = [('S',)] + [('E', i, subset[i], False) for i in range(k)] + end
-                        cases.append((n, seed(), ops, 'exh-' + ename))
+                        ops = [('S',)]
+                        if rng.random() < 0.5:      # let the workers come up (and block in recv) first
+                            ops.append(('W', rng.choice([100, 400, 1200])))
+                        for i in range(k):
+                            ops.append(('E', i, subset[i], False))
+                            if rng.random() < 0.2:
+                                ops.append(('W', rng.choice([0, 100, 600])))
+                        cases.append((n, seed(), ops + end, 'exh-' + ename))
     # rejected calls
     for n in (1, 2):
         cases.append((n, seed(), [('T',), ('E', 0, False, False), ('S',), ('E', 1, False, False), ('T',),
@@ -295,6 +301,8 @@ def gen_cases(ctx):
         k = rng.randint(0, 8)
         pp = rng.choice([0.0, 0.15, 0.4, 0.8])
         ops = [('S',)]
+        if rng.random() < 0.5:
+            ops.append(('W', rng.choice([100, 400, 1200])))
         for i in range(k):
             ops.append(('E', i, rng.random() < pp, False))
             if rng.random() < 0.25:
@@ -314,17 +322,48 @@ def gen_cases(ctx):
     return cases
 
 
+SLOW_FAILURE_BUDGET = 6
+
+
+def is_slow_failure(o):
+    return o in ('DIED', 'TIMEOUT') or 'TIMEOUT' in o.split(' ')[0] or ' left=0 ' not in (' ' + o + ' ')
+
+
+def run_chunks(lines, per=5, par=8):
+    """Runs the histories in small groups, one harness process per group, `par` processes at a time."""
+    from concurrent.futures import ThreadPoolExecutor
+    chunks = [lines[i:i + per] for i in range(0, len(lines), per)]
+    with ThreadPoolExecutor(max_workers=par) as ex:
+        outs = list(ex.map(lambda c: hv._run_shard(hv.IMPL_BIN, c, 120), chunks))
+    return [o for c in outs for o in c]
+
+
 def run_impl(ctx, lines):
-    """Runs the histories; a history that ran in a process already disturbed by an earlier failure (dirty=1) is run
-    again in a fresh process."""
-    out = ctx.impl(lines)
-    for _attempt in range(3):
-        redo = [i for i, o in enumerate(out) if ' dirty=1 ' in (' ' + o + ' ') or o in ('DIED', 'TIMEOUT')]
-        if not redo:
+    """Runs the histories in rounds. A history that ran in a process already disturbed by an earlier failure
+    (dirty=1) is run again in a fresh process. Histories on which the caller blocks or workers stay alive cost
+    seconds each: once SLOW_FAILURE_BUDGET of them have been seen the remaining rounds are skipped (the verdict is
+    already a violation); skipped histories are returned as None."""
+    out = [None] * len(lines)
+    rounds = [range(0, min(40, len(lines)))] + [range(i, min(i + 400, len(lines))) for i in range(40, len(lines), 400)]
+    slow = 0
+    for rd in rounds:
+        idx = list(rd)
+        if not idx:
+            continue
+        if slow >= SLOW_FAILURE_BUDGET:
+            ctx.notes.append('stopped after %d blocking histories; %d histories not run' % (slow, len(lines) - idx[0]))
             break
-        # each in its own process so that they cannot disturb each other
-        for i in redo:
-            out[i] = hv.run_lines(hv.IMPL_BIN, [lines[i]], shards=1)[0]
+        res = run_chunks([lines[i] for i in idx])
+        for i, o in zip(idx, res):
+            out[i] = o
+        for _attempt in range(3):
+            redo = [i for i in idx if ' dirty=1 ' in (' ' + out[i] + ' ') or out[i] in ('DIED', 'TIMEOUT')]
+            if not redo:
+                break
+            res = run_chunks([lines[i] for i in redo], per=1)
+            for i, o in zip(redo, res):
+                out[i] = o
+        slow += sum(1 for i in idx if is_slow_failure(out[i]))
     return out
 
 
@@ -341,9 +380,13 @@ def run(ctx):
         cases = gen_cases(ctx)
     lines = ['pool %d %d %s' % (n, sd, ops_str(ops)) for n, sd, ops, _ in cases]
     res = run_impl(ctx, lines)
-    ctx.evaluations += len(lines)
     parsed = []
     model_lines = []
+    ran = [i for i, r in enumerate(res) if r is not None]
+    cases = [cases[i] for i in ran]
+    lines = [lines[i] for i in ran]
+    res = [res[i] for i in ran]
+    ctx.evaluations += len(lines)
     for (n, sd, ops, tag), line, r in zip(cases, lines, res):
         d = parse_result(r)
         if 'ev' not in d:
